@@ -230,6 +230,10 @@ PLAN_EVALS = {"quick": {"RRTstar": 120}, "thorough": {"RRTstar": 300}}
 PLAN_EVALS_DEFAULT = {"quick": 1500, "thorough": 6000}
 # hard wall-clock limit of one harness process (seconds).  Only a safety net: nothing is ever *judged* by wall clock.
 HARD_TIMEOUT = {"quick": 40, "thorough": 400}
+# a script *without* planner ops that exceeds the limit is given one more run with this much larger limit before the run is
+# declared unable to finish: on a heavily loaded machine (load average >> cores) everything is several times slower, and
+# nothing may be decided by wall clock
+RETRY_TIMEOUT = {"quick": 600, "thorough": 2400}
 RADII = [1e-12, 1e-6, 1e-3, 0.05, 0.3, 1.0, 3.0, 10.0, 1e3]
 PLANNERS = ["RRT", "RRTConnect", "PRM", "KPIECE1", "BITstar", "RRTstar", "EST", "BKPIECE1"]
 
@@ -266,7 +270,7 @@ def gen_configs(rng, count, tier):
             # non-default atlas parameters (lowered limits, extreme angles / radii, the other separation mode)
             opts = {"amaxc": str(r.choice([0, 1, 3])), "aeps": f2bits(r.choice([0.005, 0.3])), "aalpha": f2bits(r.choice([0.1, 1.2])),
                     "abackoff": f2bits(r.choice([0.5, 0.95])), "aexp": f2bits(r.choice([0.0, 0.9])),
-                    "arho": f2bits(delta * r.choice([1.5, 20.0])), "asep": "0" if space == "atlas" else "1"}
+                    "arho": f2bits(max(delta, 0.05) * r.choice([1.5, 8.0])), "asep": "0" if space == "atlas" else "1"}
             keys = sorted(opts)
             r.shuffle(keys)
             aextra = {kk: opts[kk] for kk in keys[:2]}
@@ -945,11 +949,11 @@ def same_or_drift(exp, got):
 def run_chart_pass(ck, hbin, cfg, pts, tier, stats):
     r = ck.rng.fork("chart%d" % cfg["idx"])
     script = chart_script(cfg, r, pts, tier)
-    out, rc, err = ck.run_bin(hbin, script, timeout=HARD_TIMEOUT[tier])
+    out, rc, err = ck.run_bin(hbin, script, timeout=RETRY_TIMEOUT[tier])
     out = out or []
     if rc == "timeout":
         stats["timeout:chart-pass"] = 1
-        stats["infra"] = "harness exceeded the hard limit of %d s in the chart pass (%s/%s)" % (HARD_TIMEOUT[tier], cfg["space"], cfg["con"])
+        stats["infra"] = "harness exceeded the long limit of %d s in the chart pass (%s/%s)" % (RETRY_TIMEOUT[tier], cfg["space"], cfg["con"])
         return script, [], [], []
     if rc != 0 or len(out) != len(script) - 1:
         return script, out, [(len(out), "crash", "chart-pass", "harness exited with %s in the chart pass: %s" % (rc, (err or "")[-600:]))], []
@@ -990,10 +994,10 @@ def run_config(ck, hbin, cfg, tier, script=None):
         # known manifold points must stay on the manifold under every tolerance the script will set
         p1cfg = dict(cfg, tol=tol_tight(cfg), maxit=max(cfg["maxit"], 50))
         p1 = pass1_script(p1cfg, r.fork("p1"), 40)
-        o1, rc1, err1 = ck.run_bin(hbin, p1, timeout=HARD_TIMEOUT[tier])
+        o1, rc1, err1 = ck.run_bin(hbin, p1, timeout=RETRY_TIMEOUT[tier])
         if rc1 == "timeout":
             return dict(script=p1, out=[], fails=[], diffs=[], stats=stats, p1=None, chart=None,
-                        infra="harness exceeded the hard limit of %d s in the projection pre-pass (%s/%s)" % (HARD_TIMEOUT[tier], cfg["space"], cfg["con"]))
+                        infra="harness exceeded the long limit of %d s in the projection pre-pass (%s/%s)" % (RETRY_TIMEOUT[tier], cfg["space"], cfg["con"]))
         if rc1 != 0 or o1 is None or len(o1) != len(p1) - 1:
             return dict(script=p1, out=o1 or [], fails=[(len(o1 or []), "crash", "pass1", "harness exited with %s: %s" % (rc1, (err1 or "")[-600:]))],
                         diffs=[], stats=stats, p1=(p1, o1 or []))
@@ -1036,9 +1040,12 @@ def run_config(ck, hbin, cfg, tier, script=None):
                     cfg["space"], cfg["con"], cfg["n"], cfg["delta"], cfg["lam"], cfg["tol"], " ".join(l.split()[:3])) for l in dropped]
                 out, rc, err = ck.run_bin(hbin, script, timeout=HARD_TIMEOUT[tier])
             if rc == "timeout":
+                stats["timeout:retried-with-long-limit"] = 1
+                out, rc, err = ck.run_bin(hbin, script, timeout=RETRY_TIMEOUT[tier])
+            if rc == "timeout":
                 return dict(script=script, out=[], fails=[], diffs=[], stats=stats, p1=p1pair, chart=None,
-                            infra="harness exceeded the hard limit of %d s on a script without planner ops (%s/%s)"
-                                  % (HARD_TIMEOUT[tier], cfg["space"], cfg["con"]))
+                            infra="harness exceeded even the long limit of %d s on a script without planner ops (%s/%s)"
+                                  % (RETRY_TIMEOUT[tier], cfg["space"], cfg["con"]))
         out = out or []
         if rc != 0 or len(out) != len(script) - 1:
             return dict(script=script, out=out, fails=[(len(out), "crash", "rc=%s" % rc, "harness exited with %s after %d of %d ops: %s"
@@ -1279,15 +1286,28 @@ def run(ck):
             c["plan"] = [PLANNERS[(pk + j) % len(PLANNERS)] for j in range(2 if tier == "quick" else 4)]
             c["evals"] = 1500 if tier == "quick" else 6000
             pk += 2
-    with ThreadPoolExecutor(max_workers=14) as ex:
-        results = list(ex.map(lambda c: (c, run_config(ck, hbin, c, tier)), cfgs))
-    for cfg, res in results:
-        account(ck, cfg, res)
-        f15_stats(ck, cfg, res)
-        ck.count("scripts:generated")
-        if bad < 4:
-            bad += judge(ck, hbin, cfg, res, tier)
-    ck.sample({"config": {k: v for k, v in cfgs[0].items()}, "first_ops": [l[:90] for l in results[0][1]["script"][1:6]]})
+    # each configuration is judged and accounted as soon as it is done (under a lock) and its recorded outputs are dropped:
+    # they are tens of MB each, keeping all of them costs tens of GB in the thorough tier
+    import threading
+    lock = threading.Lock()
+    state = {"bad": bad, "first": None}
+
+    def work(c):
+        res = run_config(ck, hbin, c, tier)
+        with lock:
+            account(ck, c, res)
+            f15_stats(ck, c, res)
+            ck.count("scripts:generated")
+            if state["bad"] < 4:
+                state["bad"] += judge(ck, hbin, c, res, tier)
+            if c is cfgs[0]:
+                state["first"] = [l[:90] for l in res["script"][1:6]]
+        res.clear()
+        return None
+
+    with ThreadPoolExecutor(max_workers=14 if tier == "quick" else 8) as ex:
+        list(ex.map(work, cfgs))
+    ck.sample({"config": {k: v for k, v in cfgs[0].items()}, "first_ops": state["first"]})
     return 0
 
 
